@@ -4,7 +4,7 @@
 // It records acknowledged operations and, after each step, every live node's view
 // of the catalogue and of the membership.
 //
-//	clus <anndbnode-binary> <workdir> <trace.ndjson> <scenario>   scenario: basic | snapshot | wiring | leave
+//	clus <anndbnode-binary> <workdir> <trace.ndjson> <scenario>   scenario: basic | snapshot | wiring | leave | lagging
 package main
 
 import (
@@ -233,21 +233,29 @@ func members(p *proc) (map[string]string, error) {
 	return out, nil
 }
 
-// observe: wait (bounded) until all live nodes agree with `stable` twice, then log every node's views
+// observe: wait (bounded, 12 s) until every live node reports the same catalogue and membership and
+// nothing changed between two polls; then log every node's views (agreeing or not)
 func observe(ps []*proc, tag string) {
 	var last string
-	dl := time.Now().Add(6 * time.Second)
+	dl := time.Now().Add(12 * time.Second)
 	for time.Now().Before(dl) {
 		cur := ""
+		agree := true
+		first := ""
 		for _, p := range ps {
 			if p.checkAlive() {
 				c, _ := catalogue(p)
 				m, _ := members(p)
 				b, _ := json.Marshal([]interface{}{c, m})
 				cur += string(b)
+				if first == "" {
+					first = string(b)
+				} else if string(b) != first {
+					agree = false
+				}
 			}
 		}
-		if cur == last {
+		if cur == last && agree {
 			break
 		}
 		last = cur
@@ -371,6 +379,48 @@ func main() {
 		observe(ps, "restart")
 		a.kill()
 		a.start()
+		observe(ps, "restart")
+	case "lagging":
+		// a follower is down while the catalogue changes and the others compact their logs: it catches
+		// up through a snapshot installed into the catalogue it rebuilt from its own (older) log
+		c.kill()
+		if d2 != "" {
+			del(a, d2)
+		}
+		d3 := create(a, 1, 2)
+		d4 := create(b, 2, 1)
+		_, _ = d3, d4
+		observe(ps, "create")
+		for _, p := range []*proc{a, b} {
+			if p.checkAlive() {
+				p.cmd.Process.Signal(syscall.SIGUSR1)
+			}
+		}
+		time.Sleep(1500 * time.Millisecond)
+		emit(event{"ev": "snapshotted"})
+		create(a, 1, 2)
+		observe(ps, "create")
+		c.start()
+		observe(ps, "restart")
+	case "lagging-leave":
+		// a follower is down while a node leaves (the partitions' replica sets change) and the log is compacted
+		b.kill()
+		ctx, cancel := context.WithTimeout(context.Background(), 5*time.Second)
+		_, err := pb.NewNodesManagerClient(a.conn).RemoveNode(ctx, &pb.Node{Id: 3})
+		cancel()
+		okv, es := 1, ""
+		if err != nil {
+			okv, es = 0, err.Error()
+		}
+		emit(event{"ev": "left", "node": 3, "ok": okv, "err": es})
+		time.Sleep(1500 * time.Millisecond)
+		c.kill()
+		if a.checkAlive() {
+			a.cmd.Process.Signal(syscall.SIGUSR1)
+		}
+		time.Sleep(1500 * time.Millisecond)
+		emit(event{"ev": "snapshotted"})
+		b.start()
 		observe(ps, "restart")
 	case "leave":
 		ctx, cancel := context.WithTimeout(context.Background(), 5*time.Second)
